@@ -597,3 +597,5 @@ def check(prog: Program, rep):
     if python_arithmetic(prog, rep, "C19.R4", [prog.function("flowpaths.utils.graphutils", "check_flow_conservation")],
                          "a non-conserving flow (200 + 100 into a node, 44 out of it) passes the conservation check and is decomposed") < 2:
         raise AnalysisError("check_flow_conservation: the sums of in- and out-flow were not found")
+    from rules.values import no_memoised_functions_of_caller_objects
+    no_memoised_functions_of_caller_objects(prog, rep, "C19.R4", ["flowpaths.utils.graphutils"])
